@@ -380,6 +380,102 @@ func stateWrites(fset *token.FileSet, repo, rel string) [][3]string {
 	return out
 }
 
+// paramWrites lists, for every function of file, the ways it may write through one of its own parameters
+// (caller-owned memory): element assignment, copy/append into the parameter or a local alias of it
+// (x := p, x = p[:0], x = append(x, ...)), mutating method on a parameter receiver.
+func paramWrites(fset *token.FileSet, repo, rel string) [][3]string {
+	p := filepath.Join(repo, rel)
+	f := parse(fset, p)
+	var out [][3]string
+	for _, d := range f.Decls {
+		fn, ok := d.(*ast.FuncDecl)
+		if !ok || fn.Body == nil {
+			continue
+		}
+		alias := map[string]string{} // name -> parameter it may alias
+		if fn.Type.Params != nil {
+			for _, fd := range fn.Type.Params.List {
+				for _, n := range fd.Names {
+					alias[n.Name] = n.Name
+				}
+			}
+		}
+		isParam := func(id *ast.Ident) (string, bool) {
+			if id == nil {
+				return "", false
+			}
+			a, ok := alias[id.Name]
+			return a, ok
+		}
+		note := func(what string) { out = append(out, [3]string{filepath.Base(rel), fn.Name.Name, what}) }
+		ast.Inspect(fn.Body, func(n ast.Node) bool {
+			switch x := n.(type) {
+			case *ast.AssignStmt:
+				for i, lhs := range x.Lhs {
+					var rhs ast.Expr
+					if len(x.Rhs) == len(x.Lhs) {
+						rhs = x.Rhs[i]
+					}
+					if id, direct := lhs.(*ast.Ident); direct {
+						aliased := ""
+						if rhs != nil {
+							r := rhs
+							if c, ok := r.(*ast.CallExpr); ok && selName(c.Fun) == "append" && len(c.Args) > 0 {
+								r = c.Args[0]
+							}
+							switch r.(type) {
+							case *ast.Ident, *ast.SliceExpr, *ast.ParenExpr:
+								if name, ok := isParam(rootIdent(r)); ok {
+									aliased = name
+								}
+							}
+						}
+						if aliased != "" {
+							alias[id.Name] = aliased
+						} else {
+							delete(alias, id.Name) // rebinding the name to fresh memory is not a write through the parameter
+						}
+						continue
+					}
+					switch lhs.(type) {
+					case *ast.IndexExpr, *ast.StarExpr:
+						if name, ok := isParam(rootIdent(lhs)); ok {
+							note("assigns into " + name)
+						}
+					}
+				}
+			case *ast.CallExpr:
+				name := selName(x.Fun)
+				if name == "copy" && len(x.Args) > 0 {
+					if v, ok := isParam(rootIdent(x.Args[0])); ok {
+						note("copy into " + v)
+					}
+				}
+				if name == "append" && len(x.Args) > 0 {
+					if _, isSlice := x.Args[0].(*ast.SliceExpr); isSlice {
+						if v, ok := isParam(rootIdent(x.Args[0])); ok {
+							note("append into the backing array of " + v)
+						}
+					}
+				}
+				if se, ok := x.Fun.(*ast.SelectorExpr); ok {
+					if id, ok := se.X.(*ast.Ident); ok {
+						if v, ok := isParam(id); ok && !readOnlyMethods[se.Sel.Name] && mutatingBigMethods[se.Sel.Name] {
+							note("calls " + v + "." + se.Sel.Name + " (receiver is a parameter)")
+						}
+					}
+				}
+			}
+			return true
+		})
+	}
+	return out
+}
+
+var mutatingBigMethods = map[string]bool{"Set": true, "SetInt": true, "SetInt64": true, "SetFrac": true, "SetFloat64": true, "SetString": true, "SetBytes": true,
+	"Quo": true, "Mul": true, "Add": true, "Sub": true, "Neg": true, "Inv": true, "Abs": true, "Div": true, "Mod": true, "Exp": true, "Lsh": true, "Rsh": true,
+	"FromBytes": true, "Zero": true}
+
 func main() {
 	repo := "/repo"
 	for _, a := range os.Args[1:] {
@@ -536,7 +632,7 @@ func main() {
 
 	// argument lists of every validateProve call: which height the proposer / the verifier evaluate the rule at
 	{
-		var calls []string
+		var calls, deltaCalls []string
 		for _, rel := range []string{"src/consensus/logical/vrf_with_stake.go", "src/consensus/logical/vrf_worker.go"} {
 			pth := filepath.Join(repo, rel)
 			f := parse(fset, pth)
@@ -547,6 +643,13 @@ func main() {
 					continue
 				}
 				ast.Inspect(fn.Body, func(n ast.Node) bool {
+					if c, ok := n.(*ast.CallExpr); ok && selName(c.Fun) == "CalDeltaByTime" {
+						var as []string
+						for _, a := range c.Args {
+							as = append(as, strings.Join(strings.Fields(string(src[fset.Position(a.Pos()).Offset:fset.Position(a.End()).Offset])), " "))
+						}
+						deltaCalls = append(deltaCalls, fn.Name.Name+"("+strings.Join(as, ", ")+")")
+					}
 					if c, ok := n.(*ast.CallExpr); ok && selName(c.Fun) == "validateProve" {
 						var as []string
 						for _, a := range c.Args {
@@ -559,6 +662,7 @@ func main() {
 			}
 		}
 		fmt.Fprintf(&b, "\n/-- every call of validateProve with its argument expressions -/\ndef validateProveCallArgs : List String :=\n  %s\n", leanList(calls))
+		fmt.Fprintf(&b, "/-- every call of CalDeltaByTime with its argument expressions: which two times define the slot -/\ndef calDeltaCallArgs : List String :=\n  %s\n", leanList(deltaCalls))
 	}
 
 	// vrf_worker.go: status constants, the two compare-and-swap transitions, the workingOn condition
@@ -644,6 +748,23 @@ func main() {
 		}
 		b.WriteString("\n/-- (file, function, what) for every write to package-level state by a function of the VRF files (init excluded; go/ast, no type information) -/\n")
 		b.WriteString("def stateWrites : List (String × String × String) :=\n  [")
+		for i, w := range ws {
+			if i > 0 {
+				b.WriteString(",\n   ")
+			}
+			fmt.Fprintf(&b, "(%s, %s, %s)", leanStr(w[0]), leanStr(w[1]), leanStr(w[2]))
+		}
+		b.WriteString("]\n")
+	}
+
+	// writes through parameters (caller-owned memory) in the consensus-side VRF code
+	{
+		var ws [][3]string
+		for _, rel := range []string{"src/consensus/logical/vrf_with_stake.go", "src/consensus/logical/vrf_worker.go", "src/consensus/vrf/vrf.go"} {
+			ws = append(ws, paramWrites(fset, repo, rel)...)
+		}
+		b.WriteString("\n/-- (file, function, what) for every write through a parameter (caller-owned memory) -/\n")
+		b.WriteString("def paramWrites : List (String × String × String) :=\n  [")
 		for i, w := range ws {
 			if i > 0 {
 				b.WriteString(",\n   ")
